@@ -8,6 +8,7 @@
   tokens here.
 -/
 import AmiscModel.Index
+import AmiscModel.Generated.Logic
 
 namespace Amisc
 
@@ -94,5 +95,39 @@ def serializeKeys (f : CompFlags) : List String :=
   (if f.states then ["misc_states"] else []) ++ (if f.costs then ["misc_costs"] else []) ++
   (if f.ctrain then ["misc_coeff_train"] else []) ++ (if f.ctest then ["misc_coeff_test"] else []) ++
   (if f.mcost then ["model_costs"] else [])
+
+/-! ### the same field map assembled from the dispatch chain GENERATED out of `Component.serialize` -/
+
+/-- is a key with this write rule written, given whether its container is non-empty and whether the component has a surrogate -/
+def written (r : Gen.WriteRule) (nonEmpty surr : Bool) : Bool :=
+  match r with
+  | .whenNonEmpty => nonEmpty
+  | .always => true
+  | .surrogateOnly => surr
+
+def wr {α : Type} (key : String) (surr : Bool) (l : List α) : Option (List α) :=
+  if written (Gen.serializeRuleOf key) (!l.isEmpty) surr then some l else none
+
+/-- `Component.serialize` on the learned state, every field through the generated rule of ITS key -/
+def pserializeGen (s : PState) : PDoc :=
+  { name := s.name, vectorized := s.vectorized,
+    modelFid := wr "model_fidelity" (hasSurrogate s) s.modelFid, dataFid := wr "data_fidelity" (hasSurrogate s) s.dataFid,
+    surrFid := wr "surrogate_fidelity" (hasSurrogate s) s.surrFid,
+    active := wr "active_set" (hasSurrogate s) s.active, cand := wr "candidate_set" (hasSurrogate s) s.cand,
+    miscCosts := wr "misc_costs" (hasSurrogate s) s.miscCosts,
+    coeffTrain := wr "misc_coeff_train" (hasSurrogate s) s.coeffTrain, coeffTest := wr "misc_coeff_test" (hasSurrogate s) s.coeffTest,
+    states := wr "misc_states" (hasSurrogate s) s.states, modelCosts := wr "model_costs" (hasSurrogate s) s.modelCosts,
+    trainingData := if written (Gen.serializeRuleOf "training_data") true (hasSurrogate s) then some s.trainingData else none }
+
+/-- the key set written, every key through its generated rule (keys whose value may be `None` carry a not-None flag) -/
+def serializeKeysGen (f : CompFlags) : List String :=
+  let w := fun (k : String) (flag : Bool) => if written (Gen.serializeRuleOf k) flag f.surr then [k] else []
+  w "serializers" true ++ w "model" true ++ w "model_kwargs" true ++ w "inputs" true ++ w "outputs" true ++ w "vectorized" true ++
+  (if f.name then w "name" true else []) ++
+  w "model_fidelity" f.mf ++ w "data_fidelity" f.df ++ w "surrogate_fidelity" f.sf ++
+  w "interpolator" true ++ w "training_data" true ++
+  (if f.cu then w "call_unpacked" true else []) ++ (if f.ru then w "ret_unpacked" true else []) ++
+  w "active_set" f.act ++ w "candidate_set" f.cand ++ w "misc_states" f.states ++ w "misc_costs" f.costs ++
+  w "misc_coeff_train" f.ctrain ++ w "misc_coeff_test" f.ctest ++ w "model_costs" f.mcost
 
 end Amisc
